@@ -288,12 +288,16 @@ def owner_of(path):
 
 
 def expected_mass(ev, owner_path):
+    """Reference from the documentation, NOT from the code under test: node mass = cell mass / live nodes =
+    mass_density * volume / (slots - free slots).  (cell::get_node_mass is opened where the integrator uses it
+    and compared against this independent form.)"""
     if owner_path is None:
         return None
-    try:
-        return sp.sympify(ev.open_method("cell::get_node_mass", S.Lazy(owner_path, "cell")))
-    except S.Decline:
-        return None
+    rho = ev.sym(owner_path + ".cell_type_.mass_density_")
+    vol = ev.sym(owner_path + ".volume_")
+    slots = ev.sym(owner_path + ".node_lst_.size()")
+    free = ev.sym(owner_path + ".free_node_queue_.size()")
+    return rho * vol / (slots - free)
 
 
 def static_rules(rep, prog, fn, fi, cm):
